@@ -1,14 +1,23 @@
 """C28 — embedded-library startup initializes once and never deadlocks.
 
-Proof: coq/C28 (N-thread transition system of _embedding.h, invariants for ALL schedules).
-Tie: correspondence — two real embedded libraries (built as /repo/testing/embedding builds them,
-scratch tree on PYTHONPATH) and a C driver whose threads and the libraries' init codes meet at
-semaphores, so that the interleavings the model distinguishes are forced on the real code:
-call during another thread's init, failing init with a waiter, recursion from the init code,
-two libraries in parallel, init codes calling across libraries (control and the deadlocking
-variant = the witness schedule of C28_two_libraries_deadlock_refuted).  The event log decides the
-property on the implementation; the final observation is compared with the model run on the
-corresponding schedule(s).  Label: partial (memory model, pthread and CPython are hypotheses; the
+Proof: coq/C28 (N-thread, any-number-of-libraries transition system of _embedding.h; inductive invariants for
+ALL schedules; a weight function that bounds the number of effective steps and a bounded-fair termination
+theorem for libraries that do not call into each other; refutation witness for the cross-library clause).
+Tie 1 (regenerated, fail closed): five order/placement facts are read from /repo/src/cffi/_embedding.h on every
+run and written to coq/C28/Gen.v, and the model's step function consults them: where _cffi_start_python switches
+to the fast path; whether both exits of _cffi_initialize_python pass PyGILState_Release; whether the CAS guard
+of _cffi_acquire_reentrant_mutex is released before pthread_mutex_lock; whether _cffi_start_and_call_python
+zeroes the result under `fnptr == NULL` and calls only under `fnptr != NULL`; whether the failure branch resets
+_cffi_call_python_org.  The proofs are about the code as it is (all facts true): any other value breaks
+C28/Proofs.v (step_cases / step_cstep) and with it every theorem about [step].  The rest of the 19-pc step
+function is hand-written.
+Tie 2 (correspondence): two real embedded libraries (built as /repo/testing/embedding builds them, scratch tree on
+PYTHONPATH) and a C driver whose threads and the libraries' init codes meet at semaphores, so that the
+interleavings the model distinguishes are forced on the real code: call during another thread's init, failing
+init with a waiter, recursion from the init code, two libraries in parallel, init codes calling across
+libraries (control and the deadlocking variant = the witness schedule of C28_two_libraries_deadlock_refuted).
+The event log decides the property on the implementation; the final observation is compared with the model run
+on the corresponding schedule(s).  Label: partial (memory model, pthread and CPython are hypotheses; the
 schedules on the real code are a sample).
 """
 from lib import vlib
@@ -100,6 +109,67 @@ def init_exits(src):
     return follow(start), follow(labels["error"])
 
 
+def zero_on_null(src):
+    """_cffi_start_and_call_python: is the result buffer zeroed under `if (fnptr == NULL) { ... }` (fnptr being the
+    value of _cffi_start_python()), and does the one call through fnptr stand directly under `if (fnptr != NULL)`,
+    after the memset?  Unknown shapes (no such function, several calls/assignments) are untranslatable; a missing or
+    differently placed memset / an unguarded call give False."""
+    m = re.search(r"void\s+_cffi_start_and_call_python\(struct _cffi_externpy_s \*externpy,\s*char \*args\)\s*\{", src)
+    if not m:
+        raise Untranslatable("_cffi_start_and_call_python not found")
+    body = src[m.end() - 1:_block(src, m.end() - 1)]
+    body = re.sub(r"/\*.*?\*/", " ", body, flags=re.S)
+    body = re.sub(r'"(?:[^"\\]|\\.)*"', '""', body)
+    asg = [x.end() for x in re.finditer(r"(?<![\w>.])fnptr\s*=(?!=)", body)]
+    start = [x.end() for x in re.finditer(r"(?<![\w>.])fnptr\s*=\s*_cffi_start_python\(\)\s*;", body)]
+    calls = [x.start() for x in re.finditer(r"(?<![\w>.])fnptr\s*\(", body)]
+    if len(asg) != 1 or len(start) != 1 or len(calls) != 1 or not start[0] < calls[0]:
+        raise Untranslatable("_cffi_start_and_call_python: unexpected shape (%d assignments to fnptr, %d from "
+                             "_cffi_start_python(), %d calls through it)" % (len(asg), len(start), len(calls)))
+    if not re.match(r"fnptr\s*\(\s*externpy\s*,\s*args\s*\)\s*;", body[calls[0]:]):
+        raise Untranslatable("_cffi_start_and_call_python: the call through fnptr has unexpected arguments")
+    zeroed = False
+    for g in re.finditer(r"if\s*\(\s*fnptr\s*==\s*NULL\s*\)\s*\{", body):
+        if g.start() < start[0]:
+            continue
+        blk = body[g.end() - 1:_block(body, g.end() - 1)]
+        if g.end() < calls[0] and blk.count("{") == 1 and \
+                re.search(r"(?<![\w])memset\(\s*args\s*,\s*0\s*,\s*externpy->size_of_result\s*\)\s*;", blk):
+            zeroed = True
+    guarded = re.search(r"if\s*\(\s*fnptr\s*!=\s*NULL\s*\)\s*\{?\s*$", body[:calls[0]]) is not None
+    return zeroed and guarded
+
+
+def fail_resets_org(body, cstart, cend):
+    """_cffi_start_python (comment-free body; body[cstart:cend] = the block of `if (!called)`): does the failure branch
+    of the one `_cffi_initialize_python()` test contain `_cffi_call_python_org = NULL;`?  No such assignment anywhere
+    -> False; an assignment at any other place -> untranslatable."""
+    inits = [x.start() for x in re.finditer(r"_cffi_initialize_python\(\)", body)]
+    if len(inits) != 1 or not cstart <= inits[0] < cend:
+        raise Untranslatable("_cffi_start_python: expected exactly one _cffi_initialize_python() inside 'if (!called)'")
+    asg = [x.start() for x in re.finditer(r"_cffi_call_python_org\s*=(?!=)", body)]
+    nul = [x.start() for x in re.finditer(r"_cffi_call_python_org\s*=\s*NULL\s*;", body)]
+    if not asg:
+        return False
+    if len(asg) != 1 or asg != nul:
+        raise Untranslatable("_cffi_start_python: unexpected assignments to _cffi_call_python_org")
+    a = asg[0]
+    blk = body[cstart:cend]
+    ok = re.search(r"if\s*\(\s*_cffi_initialize_python\(\)\s*==\s*0\s*\)\s*\{", blk)
+    ne = re.search(r"if\s*\(\s*_cffi_initialize_python\(\)\s*!=\s*0\s*\)\s*\{", blk)
+    if ok:
+        oend = _block(body, cstart + ok.end() - 1)
+        e = re.match(r"\s*else\s*\{", body[oend:])
+        if e and oend + e.end() - 1 <= a < _block(body, oend + e.end() - 1):
+            return True
+    elif ne:
+        nstart = cstart + ne.end() - 1
+        if nstart <= a < _block(body, nstart):
+            return True
+    raise Untranslatable("_cffi_start_python: '_cffi_call_python_org = NULL' is not in the failure branch of the "
+                         "_cffi_initialize_python() test")
+
+
 def translate_gen():
     """where does _cffi_start_python switch _cffi_call_python to the fast path?"""
     src = open(os.path.join(vlib.REPO, "src", "cffi", "_embedding.h")).read()
@@ -136,9 +206,15 @@ def translate_gen():
         raise Untranslatable("the switch is neither in the success branch nor between the block and the release")
     exits = init_exits(src)
     relfirst = guard_release_first(src)
+    zeronull = zero_on_null(src)
+    failreset = fail_resets_org(body, c.end() - 1, cend)
     return ("""(* C28/Gen.v — REGENERATED on every run by tools/props/c28.py:regen from
      /repo/src/cffi/_embedding.h   (_cffi_start_python: where "_cffi_call_python = ... _cffi_call_python_org"
-                                    stands relative to the "if (!called)" block and its success branch)
+                                    stands relative to the "if (!called)" block and its success branch, and
+                                    whether the failure branch resets _cffi_call_python_org;
+                                    _cffi_initialize_python: PyGILState_Release on both exits;
+                                    _cffi_acquire_reentrant_mutex: guard released before the lock;
+                                    _cffi_start_and_call_python: memset / call under the NULL tests)
    Do not edit: this committed copy is the snapshot used when the translator fails. *)
 
 (* the switch to the fast path is %s *)
@@ -149,8 +225,16 @@ Definition gen_init_exits : bool * bool := (%s, %s).
 
 (* _cffi_acquire_reentrant_mutex: the CAS guard is released before pthread_mutex_lock *)
 Definition gen_guard_released_before_lock : bool := %s.
+
+(* _cffi_start_and_call_python: memset(args, 0, size_of_result) under "if (fnptr == NULL)", and the only
+   call through fnptr under "if (fnptr != NULL)", after it *)
+Definition gen_zero_on_null : bool := %s.
+
+(* _cffi_start_python: the failure branch of _cffi_initialize_python(), inside "if (!called)", resets
+   _cffi_call_python_org = NULL *)
+Definition gen_fail_resets_org : bool := %s.
 """ % (what, "true" if inside else "false", "true" if exits[0] else "false", "true" if exits[1] else "false",
-       "true" if relfirst else "false"))
+       "true" if relfirst else "false", "true" if zeronull else "false", "true" if failreset else "false"))
 
 
 def regen(ctx):
@@ -386,10 +470,18 @@ def run(ctx):
         "init codes calling each other (model's deadlock witness). Each compared with the model on the corresponding "
         "schedule or on several random fair schedules. Non-trivial = every scenario; distinct by name and parameters.")
     ctx.assumptions += [
-        "hand-written model C28/Model.v of _embedding.h (tied by this run's scenarios, not by translation)",
+        "model C28/Model.v of _embedding.h: the 19-pc step function is hand-written; five order/placement facts it "
+        "consults (Gen.v: fast-path switch position, PyGILState_Release on both exits of _cffi_initialize_python, CAS "
+        "guard released before pthread_mutex_lock, memset-under-NULL / call-under-non-NULL, failure branch resets "
+        "_cffi_call_python_org) are regenerated from the source on every run; everything else is tied by this run's "
+        "scenarios only",
         "atomic CAS; pthread recursive mutex = 'free iff no other thread is between lock and unlock'; sequentially "
         "consistent memory (write/read barrier pair not modelled); Py_InitializeEx, module init and init code are single steps",
-        "termination needs a fair scheduler and terminating init code: only deadlock-freedom is proved",
+        "termination is proved under a bounded-fair scheduler (rounds in which every thread is scheduled at least once) "
+        "for libraries that do not call into each other and user code that stops starting nested calls "
+        "(C28_independent_libraries_terminate / C28_single_library_terminates, bound weight s <= 18 * frames); for an "
+        "arbitrary scheduler only the number of effective steps is bounded (C28_effective_steps_bounded) and "
+        "deadlock-freedom holds; fairness of the OS scheduler and of the GIL hand-over are hypotheses",
         "the real schedules are forced by semaphores and short delays; the verdict is taken from the event order, "
         "never from the delays; deadlock on the real code = watchdog timeout"]
     evaluate(ctx, generate(ctx))
@@ -397,18 +489,37 @@ def run(ctx):
 
 MANIFEST = dict(
     technique="Coq proof (N-thread / any-library transition system of _embedding.h, inductive invariants over all "
-              "schedules; refutation witness for the two-library clause) + scenario correspondence on real embedded "
-              "libraries with a semaphore-driven driver",
+              "schedules; weight function bounding the effective steps and a bounded-fair termination theorem; "
+              "refutation witness for the cross-library clause) + five order/placement facts of _embedding.h "
+              "regenerated from the source into coq/C28/Gen.v on every run (fail closed; the step function consults "
+              "them and the proofs only go through for the values of the code as it is) + scenario correspondence on "
+              "real embedded libraries with a semaphore-driven driver",
     text="Model hypotheses: sequentially consistent memory (the write/read barrier pair is not modelled), atomic CAS, "
-         "pthread recursive mutex as specified, Py_InitializeEx / module init / init code as single steps. Under these, "
-         "proof for all schedules, thread counts, libraries and recursion depths: Py_InitializeEx at most once; each "
-         "library's init code and mutex creation at most once; no thread but the initializer runs an extern function "
-         "before the library's init finished; after a failed init the state is final, the function pointer stays NULL "
-         "and every call returns the zeroed result within 18 own effective steps (ranking function); with one library "
-         "some thread can always move (no deadlock) and every effective step lowers the rank of the call or starts/ends a "
-         "nested call, i.e. termination up to scheduler fairness and terminating user code. The "
-         "no-deadlock clause is refuted for two libraries whose init codes call each other (witness schedule, replayed "
-         "on the real code).",
-    note="Partial: memory model, pthread mutex and CPython are hypotheses of the model; real schedules are a sample. "
+         "pthread recursive mutex as specified, Py_InitializeEx / module init / init code as single steps, fair GIL "
+         "hand-over. Under these, proof for all schedules, thread counts, libraries and recursion depths: "
+         "Py_InitializeEx at most once; each library's init code and mutex creation at most once; no thread but the "
+         "initializer runs an extern function before the library's init finished; slot and mutex exclusion; after a "
+         "failed init the state is final, the function pointer stays NULL, the extern function is never entered and a "
+         "call at the end of _cffi_start_python returns the zeroed result (one-step statements "
+         "C28_failed_init_returns_zero / C28_failed_call_progress); nobody leaves _cffi_initialize_python keeping the "
+         "GIL (C28_gil_never_kept); in every reachable state with a call in progress some thread can move, for one "
+         "library (C28_no_deadlock_one_library) and for any number of libraries that do not call into each other "
+         "(C28_no_deadlock_independent_libraries). Bound: weight = sum of the ranks (1..18) of all frames; a step "
+         "that does not change the stepping thread's stack changes nothing (C28_stutter), every other step that "
+         "does not start a call strictly decreases the weight (C28_weight_decreases), a call adds at most 18 "
+         "(C28_weight_call), weight <= 18 * frames (C28_weight_bound); hence under ANY schedule without further "
+         "calls at most weight s effective steps happen (C28_effective_steps_bounded), and under a bounded-fair "
+         "scheduler (rounds in which every thread is scheduled at least once) with independent libraries / one "
+         "library every call has returned after weight s <= 18 * frames rounds "
+         "(C28_independent_libraries_terminate, C28_single_library_terminates; non-vacuity Examples "
+         "C28_example_rounds, C28_example_independent). C28_bounded_steps is only the one-step shape lemma behind "
+         "this. The no-deadlock clause is refuted for two libraries whose init codes call each other "
+         "(C28_two_libraries_deadlock_refuted, witness schedule replayed on the real code). Regenerated on every run "
+         "(Gen.v, consulted by the step function): position of the fast-path switch, PyGILState_Release on both exits "
+         "of _cffi_initialize_python, CAS guard released before pthread_mutex_lock, memset under fnptr == NULL and "
+         "call under fnptr != NULL in _cffi_start_and_call_python, failure branch resets _cffi_call_python_org; the "
+         "rest of the step function is hand-written and tied by the scenarios only.",
+    note="Partial: memory model, pthread mutex, CPython and scheduler fairness are hypotheses of the model; "
+         "termination is not proved for user code that keeps starting nested calls; real schedules are a sample. "
          "Known finding: cross-library-init-deadlock.",
     design_ref="DESIGN.md §4 C28")
